@@ -404,6 +404,35 @@ impl Context {
     }
 }
 
+#[cfg(feature = "verif")]
+impl Context {
+    /// For every state, the index of its memory block and whether it collects arguments.
+    pub fn verif_states(&self) -> Vec<(usize, bool)> {
+        self.states
+            .iter()
+            .map(|s| (s.memory_block_index, s.arguments.is_some()))
+            .collect()
+    }
+
+    pub fn verif_blocks(&self) -> Vec<crate::interpreter::verif::BlockSnapshot<'_>> {
+        self.memory_blocks
+            .iter()
+            .map(|b| crate::interpreter::verif::BlockSnapshot {
+                ref_count: b.ref_count,
+                is_static: b.is_static,
+                variables: b.variables.verif_entries().collect(),
+            })
+            .collect()
+    }
+
+    pub fn verif_static_blocks(&self) -> Vec<(&ScopeName, usize)> {
+        self.static_memory_blocks
+            .iter()
+            .map(|(k, v)| (k, *v))
+            .collect()
+    }
+}
+
 impl std::ops::Index<usize> for Context {
     type Output = Variant;
 
